@@ -14,6 +14,7 @@ def main():
     ap.add_argument("--tier", default=os.environ.get("VERIF_TIER", "quick"), choices=["quick", "thorough"])
     ap.add_argument("--replay", default=None)
     a = ap.parse_args()
+    os.environ["VERIF_TIER"] = a.tier
     seed = int(os.environ.get("VERIF_SEED", "0") or 0)
     try:
         mod = importlib.import_module(f"harness.props.{a.prop}")
